@@ -138,6 +138,7 @@ func checkC09(p *core.Program, r *core.Report) {
 	r.Rule("R2", "lock discipline: every access to flowAssets.cache is preceded by mutex.Lock() in the same function with the Unlock deferred (no explicit Unlock can reach the access)")
 	r.Rule("R3", "lazily initialised values are not shared: package-level variables of types with an unsynchronised initialise-on-read method (XObject, XArray) are constructed eagerly")
 	r.Rule("R4", "the writer callbacks handed out by EnumerateLocalizables are invoked only on a flow that is a fresh copy")
+	r.Rule("R6", "package-level expression values are never marked: XValue.SetDeprecated (the one mutator of X values) is only called on a value that cannot be a package-level variable — followed backwards through phis, conversions and the returns of the module functions that produced it (a conversion that hands out shared singletons such as XBooleanTrue makes the mark visible to every session)")
 	r.Rule("R5", "JSON decode targets do not alias shared data: no pointer field of a struct handed to a JSON decoder can hold a pointer derived from a package-level variable at the call (encoding/json writes through existing pointers), unless the function stores a fresh value into it first")
 	r.Assumption("dependencies (validator caches, regexp) are goroutine-safe; the host's asset source is goroutine-safe")
 
@@ -417,11 +418,63 @@ func checkC09(p *core.Program, r *core.Report) {
 		}
 	}
 	r.Count("package_level_lazy_values", nLazy)
+	// the same for members of shared objects: a field of a type reachable from the session assets that can hold an X
+	// value is published to every session, so what is stored in it must be fully built
+	{
+		canHoldX := func(t types.Type) bool {
+			if pt, ok := t.(*types.Pointer); ok {
+				t = pt.Elem()
+			}
+			n, ok := t.(*types.Named)
+			if !ok || n.Obj().Pkg() == nil {
+				return false
+			}
+			q := core.QualName(n)
+			return lazyTypes[q] || q == "excellent/types.XValue"
+		}
+		nShared := 0
+		st := sharedTypes(p)
+		for _, k := range core.SortedKeys(st) {
+			stt, ok := st[k].Underlying().(*types.Struct)
+			if !ok {
+				continue
+			}
+			for i := 0; i < stt.NumFields(); i++ {
+				f := stt.Field(i)
+				if !canHoldX(f.Type()) {
+					continue
+				}
+				for _, w := range p.FieldWrites(f) {
+					if p.IsTestFile(w.Instr.Pos()) || w.Val == nil {
+						continue
+					}
+					nShared++
+					eager, how := false, "constructor not identified"
+					for v := range core.BackSlice(w.Val, nil) {
+						c, ok := v.(*ssa.Call)
+						if !ok || c.Call.StaticCallee() == nil {
+							continue
+						}
+						g := c.Call.StaticCallee()
+						if constructsEagerly(g, 0) {
+							eager, how = true, "constructed by "+core.FuncName(g)+", which fills the lazily-read fields before returning"
+						} else {
+							how = "constructed by " + core.FuncName(g) + ", which leaves the properties to be built on first read"
+						}
+					}
+					r.Check(eager, "R3", k+"."+f.Name()+"<-"+core.FuncName(w.Fn), p.Pos(w.Instr.Pos()), how,
+						"an expression value is kept in "+k+"."+f.Name()+", a member of an object every session shares, and it is initialised lazily on first read without synchronisation: "+how+" (concurrent sessions race on the first evaluation)")
+				}
+			}
+		}
+		r.Count("shared_object_x_value_stores", nShared)
+	}
 
 	// ------------------------------------------------------------------ R4 writer callbacks
 	c09R4(p, r)
 	// ------------------------------------------------------------------ R5 decode targets
 	c09R5(p, r)
+	c09R6(p, r)
 }
 
 // globalLazyInit: decides whether the XObject/XArray stored in global g is fully initialised before it is published.
@@ -845,4 +898,114 @@ func c09R5(p *core.Program, r *core.Report) {
 	}
 	r.Count("json_decode_sites", n)
 	r.Require("json_decode_sites", n, 60)
+}
+
+// ---------------------------------------------------------------------------------------------- R6
+
+// c09MayBeGlobal: v may be (a pointer held in) a package-level variable of the module.
+func c09MayBeGlobal(p *core.Program, v ssa.Value, depth int, seen map[ssa.Value]bool, busy map[*ssa.Function]bool) string {
+	if v == nil || seen[v] || depth > 6 {
+		return ""
+	}
+	seen[v] = true
+	switch x := v.(type) {
+	case *ssa.UnOp:
+		if g, ok := x.X.(*ssa.Global); ok && g.Pkg != nil && core.InModule(g.Pkg.Pkg.Path()) {
+			return core.RelPkgAny(g.Pkg.Pkg.Path()) + "." + g.Name()
+		}
+		if x.Op == token.MUL {
+			// a local cell: what was stored into it
+			if al, ok := x.X.(*ssa.Alloc); ok && al.Referrers() != nil {
+				for _, ref := range *al.Referrers() {
+					if st, ok := ref.(*ssa.Store); ok && st.Addr == ssa.Value(al) {
+						if w := c09MayBeGlobal(p, st.Val, depth, seen, busy); w != "" {
+							return w
+						}
+					}
+				}
+			}
+		}
+	case *ssa.Phi:
+		for _, e := range x.Edges {
+			if w := c09MayBeGlobal(p, e, depth, seen, busy); w != "" {
+				return w
+			}
+		}
+	case *ssa.MakeInterface:
+		return c09MayBeGlobal(p, x.X, depth, seen, busy)
+	case *ssa.ChangeInterface:
+		return c09MayBeGlobal(p, x.X, depth, seen, busy)
+	case *ssa.ChangeType:
+		return c09MayBeGlobal(p, x.X, depth, seen, busy)
+	case *ssa.TypeAssert:
+		return c09MayBeGlobal(p, x.X, depth, seen, busy)
+	case *ssa.Extract:
+		return c09MayBeGlobal(p, x.Tuple, depth, seen, busy)
+	case *ssa.Call:
+		var callees []*ssa.Function
+		if g := x.Call.StaticCallee(); g != nil {
+			callees = append(callees, g)
+		} else if x.Call.IsInvoke() {
+			if n := p.CHA().Nodes[x.Parent()]; n != nil {
+				for _, e := range n.Out {
+					if e.Site == ssa.CallInstruction(x) && core.InModule(core.FuncPkgPath(e.Callee.Func)) {
+						callees = append(callees, e.Callee.Func)
+					}
+				}
+			}
+		}
+		for _, g := range callees {
+			if g.Blocks == nil || busy[g] || !core.InModule(core.FuncPkgPath(g)) {
+				continue
+			}
+			busy[g] = true
+			for _, ret := range core.Returns(g) {
+				for _, rv := range ret.Results {
+					if w := c09MayBeGlobal(p, rv, depth+1, map[ssa.Value]bool{}, busy); w != "" {
+						delete(busy, g)
+						return w + " (returned by " + g.Name() + ")"
+					}
+				}
+			}
+			delete(busy, g)
+		}
+	}
+	return ""
+}
+
+func c09R6(p *core.Program, r *core.Report) {
+	n := 0
+	per := map[string]int{}
+	for _, cs := range p.CallsToName("excellent/types.XValue.SetDeprecated", "excellent/types.baseValue.SetDeprecated") {
+		if p.IsTestFile(cs.Pos()) {
+			continue
+		}
+		var recv ssa.Value
+		if cs.Common().IsInvoke() {
+			recv = cs.Common().Value
+		} else if len(cs.Common().Args) > 0 {
+			recv = cs.Common().Args[0]
+		}
+		if recv == nil || rootFn(cs.Caller).Name() == "SetDeprecated" {
+			continue
+		}
+		n++
+		k := core.FuncName(rootFn(cs.Caller)) + "/SetDeprecated"
+		per[k]++
+		key := k
+		if per[k] > 1 {
+			key = fmt.Sprintf("%s#%d", k, per[k])
+		}
+		// through embedded-base field addresses to the object itself
+		for {
+			if fa, ok := recv.(*ssa.FieldAddr); ok {
+				recv = fa.X
+				continue
+			}
+			break
+		}
+		w := c09MayBeGlobal(p, recv, 0, map[ssa.Value]bool{}, map[*ssa.Function]bool{})
+		r.Check(w == "", "R6", key, p.Pos(cs.Pos()), "the marked value is produced for this evaluation", "SetDeprecated is applied to a value that may be the package-level "+w+": the mark is written without synchronisation into a value every session shares, and from then on every session that reads that value logs a deprecation warning")
+	}
+	r.Require("setdeprecated_sites", n, 5)
 }
